@@ -6,7 +6,10 @@
 //	hdr     HeaderConn.Write from several goroutines with the underlying Write parked: every order
 //	mux     schedules of Route / Accept / Close / cancel / base failure relative to connections
 //	        whose bytes arrive piecemeal; after every operation the process runs to quiescence
-//	        (one stop-the-world goroutine snapshot in which everything but the harness is blocked)
+//	        (one stop-the-world goroutine snapshot in which everything but the harness is blocked);
+//	        `Q<l>:<p>` is the one burst: Close(listener l) and Route(p) back to back, without waiting for
+//	        the monitor goroutine the Close wakes up (which of the two reaches m.mu first is observed from
+//	        Route's result and recorded in the request: `Q` = Route first, `q` = the monitor's delete first)
 package migrate
 
 import (
@@ -116,6 +119,9 @@ type world struct {
 	runErr   error
 	lis      []net.Listener // 0 = default, then in order of creation by Route
 	lisPfx   [][]byte       // the prefix each routed listener was created for
+	lisDead  []bool         // the harness closed it, or it was created after the mux stopped
+	stopped  bool           // the harness cancelled the context / made the base listener fail
+	last     int            // the listener returned by the most recent Route (what `*` refers to)
 	conns    []*sconn
 	clog     *closeLog
 	accMu    sync.Mutex
@@ -130,6 +136,7 @@ func newWorld(n int) (*world, error) {
 	w.mux = drpcmigrate.NewListenMux(w.base, n)
 	w.lis = []net.Listener{w.mux.Default()}
 	w.lisPfx = [][]byte{nil}
+	w.lisDead = []bool{false}
 	ctx, cancel := context.WithCancel(context.Background())
 	w.cancel = cancel
 	go func() {
@@ -159,12 +166,30 @@ func (w *world) route(p []byte) (res string) {
 	l := w.mux.Route(string(p))
 	for i, x := range w.lis {
 		if x == l {
+			w.last = i
 			return fmt.Sprintf("l%d", i)
 		}
 	}
 	w.lis = append(w.lis, l)
 	w.lisPfx = append(w.lisPfx, append([]byte(nil), p...))
+	w.lisDead = append(w.lisDead, w.stopped)
+	w.last = len(w.lis) - 1
 	return fmt.Sprintf("l%d", len(w.lis)-1)
+}
+
+// liveRoute: the listener the harness holds for prefix key that must be registered right now: returned
+// by Route(key), not closed by the harness, the mux not stopped (0 = none).  This is the harness's own
+// bookkeeping of the API calls it made, not the model's state.
+func (w *world) liveRoute(key []byte) int {
+	if w.stopped {
+		return 0
+	}
+	for l := len(w.lis) - 1; l >= 1; l-- {
+		if !w.lisDead[l] && bytes.Equal(w.lisPfx[l], key) {
+			return l
+		}
+	}
+	return 0
 }
 
 func (w *world) accept(li int) int {
@@ -198,6 +223,9 @@ func (w *world) accSnapshot() []accRes {
 func (w *world) newConn() (*sconn, error) {
 	c := newSconn(len(w.conns), w.clog)
 	w.conns = append(w.conns, c)
+	if w.n == 0 {
+		c.wantLis = w.liveRoute(nil) // a zero-length prefix is complete at once
+	}
 	select {
 	case w.base.ch <- c:
 		return c, nil
@@ -855,12 +883,15 @@ type muxRun struct {
 	fin        []string
 	bad        string
 	used       bool // interleaving: some op happened while a connection was mid-prefix or waiting
+	ops        []string // the operations as issued: `*` resolved, the outcome of every burst recorded
+	bursts     []string // per burst Q: "old" (Route got the closed, still registered listener) / "fresh" / "other"
 }
 
 type muxScenario struct {
 	n     int
 	ops   []string
 	sizes []int
+	sym   bool // listeners are referred to symbolically (`*`) or exist by construction: no static validity filter
 }
 
 func (sc muxScenario) request() string {
@@ -878,8 +909,11 @@ func (w *world) valid(op string) bool {
 	case 'R':
 		return true
 	case 'A', 'C':
-		i, _ := strconv.Atoi(op[1:])
-		return i < len(w.lis)
+		i, err := strconv.Atoi(op[1:])
+		return err == nil && i < len(w.lis)
+	case 'Q':
+		i, err := strconv.Atoi(strings.SplitN(op[1:], ":", 2)[0])
+		return err == nil && i < len(w.lis) && strings.Contains(op, ":")
 	case 'X':
 		return true
 	case 'F', 'N':
@@ -906,7 +940,21 @@ func unhex(s string) []byte {
 	return b
 }
 
-func (w *world) apply(op string) (pre string, err error) {
+// resolve replaces the symbolic listener `*` (the one the most recent Route returned) in A*, C*, Q*:<p>.
+func (w *world) resolve(op string) string {
+	switch {
+	case op == "A*" || op == "C*":
+		return op[:1] + strconv.Itoa(w.last)
+	case strings.HasPrefix(op, "Q*:"):
+		return "Q" + strconv.Itoa(w.last) + op[2:]
+	}
+	return op
+}
+
+// apply issues one operation.  canon is the operation as it is recorded in the request: the same text,
+// except for the burst Q, where it says which of the two racing critical sections came first.
+func (w *world) apply(op string) (pre, canon string, err error) {
+	canon = op
 	switch op[0] {
 	case 'R':
 		pre = w.route(unhex(op[1:]))
@@ -916,23 +964,50 @@ func (w *world) apply(op string) (pre string, err error) {
 	case 'C':
 		i, _ := strconv.Atoi(op[1:])
 		_ = w.lis[i].Close()
+		w.lisDead[i] = true
+	case 'Q':
+		// Close and Route back to back on this goroutine: the monitor goroutine woken by the Close races
+		// with the Route for m.mu.  Route returns the registered listener when there is one, so a NEW
+		// listener for the closed listener's own prefix means the monitor's delete came first.
+		parts := strings.SplitN(op[1:], ":", 2)
+		i, _ := strconv.Atoi(parts[0])
+		p := unhex(parts[1])
+		before := len(w.lis)
+		_ = w.lis[i].Close()
+		pre = w.route(p)
+		w.lisDead[i] = true
+		if len(w.lis) > before && i > 0 && bytes.Equal(w.lisPfx[i], p) {
+			canon = "q" + op[1:]
+		}
 	case 'X':
 		w.cancel()
 		w.baseDead = true
+		w.stopped = true
 	case 'F':
 		tag, _ := strconv.Atoi(op[1:])
 		err = w.baseFail(tag)
+		w.stopped = true
 	case 'N':
 		_, err = w.newConn()
 	case 'W':
 		parts := strings.SplitN(op[1:], ":", 2)
 		k, _ := strconv.Atoi(parts[0])
-		w.conns[k].push(unhex(parts[1]))
+		b := unhex(parts[1])
+		c := w.conns[k]
+		c.mu.Lock()
+		have := len(c.all)
+		c.mu.Unlock()
+		if have < w.n && have+len(b) >= w.n {
+			// the prefix completes with this write: routeConn looks the route up now
+			key := append(append([]byte(nil), c.all...), b...)[:w.n]
+			c.wantLis = w.liveRoute(key)
+		}
+		c.push(b)
 	case 'E':
 		k, _ := strconv.Atoi(op[1:])
 		w.conns[k].clientClose()
 	}
-	return pre, err
+	return pre, canon, err
 }
 
 // events between two observations, canonical order: accept results by call index, closes by
@@ -973,7 +1048,8 @@ func runMux(o *corr.Out, sc muxScenario) (mr muxRun) {
 		mr.bad = err.Error()
 		return
 	}
-	for _, op := range sc.ops {
+	for i, op := range sc.ops {
+		op = w.resolve(op)
 		acc0 := w.accSnapshot()
 		closes0 := len(w.clog.snapshot())
 		run0, _ := w.runState()
@@ -991,14 +1067,27 @@ func runMux(o *corr.Out, sc muxScenario) (mr muxRun) {
 			// the schedule was generated from the documented behaviour; the implementation has fewer
 			// listeners / connections than it should have at this point
 			mr.notEnabled = op
+			mr.ops = append(append(mr.ops, op), sc.ops[i+1:]...)
 			break
 		}
-		pre, err := w.apply(op)
+		pre, canon, err := w.apply(op)
+		mr.ops = append(mr.ops, canon)
+		if op[0] == 'Q' {
+			switch {
+			case canon[0] == 'q':
+				mr.bursts = append(mr.bursts, "fresh")
+			case pre != "panic" && w.lisDead[w.last]:
+				mr.bursts = append(mr.bursts, "old")
+			default:
+				mr.bursts = append(mr.bursts, "other")
+			}
+		}
 		if err == nil {
 			_, err = settle(self, waitLimit)
 		}
 		if err != nil {
 			mr.bad = "op " + op + ": " + err.Error()
+			mr.ops = append(mr.ops, sc.ops[i+1:]...)
 			break
 		}
 		ev := w.events(acc0, closes0, run0)
@@ -1012,7 +1101,9 @@ func runMux(o *corr.Out, sc muxScenario) (mr muxRun) {
 		mr.evs = append(mr.evs, ev)
 	}
 	if mr.bad == "" && mr.notEnabled == "" {
-		mr.fin, mr.bad = w.finish(o, sc)
+		rsc := sc
+		rsc.ops = mr.ops
+		mr.fin, mr.bad = w.finish(o, rsc)
 	}
 	if mr.notEnabled != "" {
 		w.cancel()
@@ -1075,6 +1166,16 @@ func (w *world) finish(o *corr.Out, sc muxScenario) (fin []string, bad string) {
 			} else if li != 0 {
 				o.Oracle("routed-by-prefix", req, fmt.Sprintf("conn %d delivered wrapped by routed listener %d", k, li))
 			}
+			// the route registered for its prefix: when the prefix arrived the harness held a live listener
+			// returned by Route for exactly these bytes, so that listener must be the one that delivers it
+			if l := c.wantLis; l > 0 {
+				if li != l {
+					o.Oracle("routed-by-prefix", req, fmt.Sprintf("conn %d (%s) was delivered by listener %d although Route(%s) had returned the live listener %d before the prefix arrived",
+						k, corr.Hex(c.all), li, corr.Hex(w.lisPfx[l]), l))
+				} else {
+					o.OracleOK("live-route-receives")
+				}
+			}
 			if !bytes.Equal(got, want) {
 				o.Oracle("byte-transparency", req, fmt.Sprintf("conn %d: acceptor read %s, client sent %s", k, corr.Hex(got), corr.Hex(c.all)))
 			} else {
@@ -1082,10 +1183,57 @@ func (w *world) finish(o *corr.Out, sc muxScenario) (fin []string, bad string) {
 			}
 		case closes[k] > 0:
 			fin = append(fin, "closed")
+			if l := c.wantLis; l > 0 && !w.stopped && !w.lisDead[l] {
+				o.Oracle("routed-by-prefix", req, fmt.Sprintf("conn %d (%s) was closed by the mux although the live listener %d is registered for its prefix", k, corr.Hex(c.all), l))
+			}
 		case c.readersWaiting() > 0:
 			fin = append(fin, "reading")
 		default:
 			fin = append(fin, "offered")
+		}
+	}
+	// ---- live routes receive (not compared with the model: direct oracle only).  A connection that is
+	// still undelivered although the harness holds a live listener for its prefix must be waiting for
+	// exactly that listener: no Accept on it may be blocked, and an Accept issued now returns it.
+	if !w.stopped {
+		for l := 1; l < len(w.lis); l++ {
+			if w.lisDead[l] {
+				continue
+			}
+			pend := map[int]bool{}
+			for k, c := range w.conns {
+				if c.wantLis == l && len(deliveredBy[k]) == 0 && closes[k] == 0 {
+					pend[k] = true
+				}
+			}
+			if len(pend) == 0 {
+				continue
+			}
+			what := fmt.Sprintf("live listener %d registered for prefix %s, %d undelivered connection(s) carrying it", l, corr.Hex(w.lisPfx[l]), len(pend))
+			okLive := true
+			for t, r := range acc {
+				if !r.done && w.accLis[t] == l {
+					okLive = false
+					o.Oracle("live-route-receives", req, fmt.Sprintf("%s: Accept call %d on it is blocked", what, t))
+					break
+				}
+			}
+			for n := len(pend); okLive && n > 0; n-- {
+				t := w.accept(l)
+				if _, err := settle(self, waitLimit); err != nil {
+					return fin, "probe: " + err.Error()
+				}
+				r := w.accSnapshot()[t]
+				if !r.done || r.err != nil || !pend[connID(r.conn)] {
+					okLive = false
+					o.Oracle("live-route-receives", req, fmt.Sprintf("%s: a new Accept on it: done=%v err=%v", what, r.done, r.err))
+				} else {
+					delete(pend, connID(r.conn))
+				}
+			}
+			if okLive {
+				o.OracleOK("live-route-receives")
+			}
 		}
 	}
 	// ---- stop phase (not compared with the model: direct oracles only)
@@ -1204,7 +1352,7 @@ func runMuxCases(o *corr.Out) {
 	emit := func(class string, sc muxScenario) {
 		// skip schedules containing an operation that is not enabled when its turn comes: checked
 		// dynamically by a dry pass over listener / connection counts
-		if !staticallyValid(sc) {
+		if !sc.sym && !staticallyValid(sc) {
 			o.Stat("mux:" + class + ":skipped-invalid")
 			return
 		}
@@ -1212,6 +1360,10 @@ func runMuxCases(o *corr.Out) {
 			return
 		}
 		mr := runMux(o, sc)
+		sc.ops = mr.ops
+		for _, b := range mr.bursts {
+			o.Stat("mux:burst:" + b)
+		}
 		if mr.bad != "" {
 			hangs++
 			o.Oracle("no-hang", sc.request(), mr.bad)
@@ -1381,6 +1533,143 @@ func runMuxCases(o *corr.Out) {
 		}
 		emit("random", muxScenario{n: n, ops: ops, sizes: sizes})
 	}
+	// F5: re-registering a prefix.  Route(p) again without closing (the same listener), after Close once
+	// everything settled (a fresh listener), and as a burst (Close and Route back to back: whichever of
+	// Route and the closed listener's monitor goroutine reaches m.mu first), once or repeatedly, possibly
+	// with another prefix in between — relative to connections carrying p that arrive before, during
+	// (mid-prefix) or after the re-registration, with Accepts pending or issued later.  `*` is the
+	// listener the most recent Route returned.
+	ns := []int{1, 4}
+	if o.Thorough {
+		ns = []int{1, 2, 4, 8}
+	}
+	for _, n := range ns {
+		p := hdr[:n]
+		q := append([]byte(nil), p...)
+		q[n-1] ^= 0x55
+		rp, rq := "R"+hx(p), "R"+hx(q)
+		qp, qsp := "Q1:"+hx(p), "Q*:"+hx(p)
+		mids := [][]string{
+			{},
+			{rp},
+			{"C1", rp},
+			{qp},
+			{qp, rp},
+			{qp, qsp},
+			{"C1", rp, qsp, rp},
+			{"Q1:" + hx(q), rp},
+			{rq, qp, "C2"},
+		}
+		cut := n / 2
+		full := func(k int, tail ...byte) []string { // connection k: N, then the prefix in two pieces (+ tail)
+			c := strconv.Itoa(k)
+			if cut == 0 {
+				return []string{"N", "W" + c + ":" + hx(p), "W" + c + ":" + hx(tail)}
+			}
+			return []string{"N", "W" + c + ":" + hx(p[:cut]), "W" + c + ":" + hx(append(append([]byte(nil), p[cut:]...), tail...))}
+		}
+		idx := 0
+		for mi, mid := range mids {
+			run := func(timing string, head []string, tail []string, before [][2]int) {
+				orderings(tail, before, func(t []string) {
+					idx++
+					if !o.Thorough && idx%3 != int(o.Seed%3) {
+						return
+					}
+					ops := append(append(append([]string{rp}, head...), mid...), t...)
+					o.Stat(fmt.Sprintf("mux:rereg:%s:mid%d", timing, mi))
+					emit("rereg", muxScenario{n: n, ops: ops, sizes: []int{2, 1}, sym: true})
+				})
+			}
+			c0 := full(0, 0xa0, 0xa1)
+			// the connection arrives after the re-registration
+			run("after", nil, []string{"A*", "A0", c0[0], c0[1], c0[2]}, [][2]int{{2, 3}, {3, 4}})
+			// an Accept is pending on the first listener while the prefix is re-registered
+			run("accept-pending", []string{"A1"}, []string{"A*", "A0", c0[0], c0[1], c0[2]}, [][2]int{{2, 3}, {3, 4}})
+			// the connection is in the middle of its prefix while the prefix is re-registered
+			run("mid-prefix", c0[:2], []string{"A*", "A0", c0[2]}, nil)
+			// a first connection is already waiting for the first listener; a second one arrives afterwards
+			c1 := full(1, 0xb0)
+			run("offered", c0, []string{"A*", "A0", c1[0], c1[1], c1[2]}, [][2]int{{2, 3}, {3, 4}})
+		}
+	}
+	// F6: random schedules around re-registration: two prefixes, Route / burst / Close / Accept on the
+	// most recently returned listener, connections carrying either prefix or none, an occasional stop
+	N6 := 400
+	if o.Thorough {
+		N6 = 8000
+	}
+	for i := 0; i < N6; i++ {
+		n := []int{1, 2, 4}[o.Rand.Intn(3)]
+		pfx := [][]byte{hdr[:n], append([]byte(nil), hdr[:n]...)}
+		pfx[1][n-1] ^= 1
+		ops := []string{"R" + hx(pfx[0])}
+		nc, dead := 0, false
+		sent := map[int]int{}
+		data := map[int][]byte{}
+		closed := map[int]bool{}
+		want := 5 + o.Rand.Intn(10)
+		for guard := 0; len(ops) < want && guard < 200; guard++ {
+			switch o.Rand.Intn(12) {
+			case 0:
+				ops = append(ops, "R"+hx(pfx[o.Rand.Intn(2)]))
+			case 1, 2:
+				ops = append(ops, "Q*:"+hx(pfx[o.Rand.Intn(2)]))
+			case 3:
+				ops = append(ops, "C*")
+			case 4, 5:
+				ops = append(ops, "A*")
+			case 6:
+				ops = append(ops, []string{"A0", "A1", "Q1:" + hx(pfx[0])}[o.Rand.Intn(3)])
+			case 7:
+				if o.Rand.Intn(8) == 0 {
+					if o.Rand.Intn(2) == 0 {
+						ops = append(ops, "X")
+					} else if !dead {
+						ops = append(ops, fmt.Sprintf("F%d", 1+o.Rand.Intn(5)))
+					}
+					dead = true
+				}
+			case 8:
+				if !dead && nc < 3 {
+					ops = append(ops, "N")
+					pp := pfx[o.Rand.Intn(2)]
+					if o.Rand.Intn(6) == 0 {
+						pp = []byte{0xee, 0xee, 0xee, 0xee}[:n]
+					}
+					data[nc] = append(append([]byte(nil), pp...), byte(0xa0+nc), byte(0xb0+nc))
+					nc++
+				}
+			case 9, 10:
+				if nc > 0 {
+					k := o.Rand.Intn(nc)
+					if closed[k] {
+						continue
+					}
+					b := []byte{byte(0xc0 + k)}
+					if sent[k] < len(data[k]) {
+						m := 1 + o.Rand.Intn(len(data[k])-sent[k])
+						b = data[k][sent[k] : sent[k]+m]
+						sent[k] += m
+					}
+					ops = append(ops, fmt.Sprintf("W%d:%s", k, hx(b)))
+				}
+			case 11:
+				if nc > 0 && o.Rand.Intn(3) == 0 {
+					k := o.Rand.Intn(nc)
+					if !closed[k] {
+						closed[k] = true
+						ops = append(ops, fmt.Sprintf("E%d", k))
+					}
+				}
+			}
+		}
+		var sizes []int
+		for k := o.Rand.Intn(3); k > 0; k-- {
+			sizes = append(sizes, 1+o.Rand.Intn(4))
+		}
+		emit("rereg-random", muxScenario{n: n, ops: ops, sizes: sizes, sym: true})
+	}
 	if !giveUp(o) {
 		replayStalledClient(o)
 	}
@@ -1401,7 +1690,7 @@ func replayStalledClient(o *corr.Out) {
 		return
 	}
 	for _, op := range []string{"N", "W0:4452", "X"} {
-		if _, err := w.apply(op); err == nil {
+		if _, _, err := w.apply(op); err == nil {
 			_, err = settle(self, waitLimit)
 		}
 		if err != nil {
